@@ -433,9 +433,12 @@ func (p *Prog) spliceable(f *Func, ev *Event) bool {
 	}
 	if ev.CI.name == "dyn" && g.Lit != nil && g.Parent != nil {
 		// a literal applied to a record gathered from a store scan is the handler of that scan: it stays a unit of its own
-		for _, a := range ev.CI.args {
-			if a.ContainsOp("sdk.KVStorePrefixIterator") || a.ContainsOp("sdk.KVStoreReversePrefixIterator") {
-				return false
+		// (called in its parent's own body — a literal reached through a driver it was handed to is walked as before)
+		if f == g.Parent {
+			for _, a := range ev.CI.args {
+				if a.ContainsOp("sdk.KVStorePrefixIterator") || a.ContainsOp("sdk.KVStoreReversePrefixIterator") {
+					return false
+				}
 			}
 		}
 		for _, h := range p.spliceHosts {
